@@ -20,7 +20,7 @@ import (
 func H_SELF_fmt() {
 	r := hValidRune()
 	n := nondetInt()
-	verifAssume(verifAnd(n > -100000, n < 100000))
+	verifAssume(verifAnd(n >= 0, n < 50000)) // symbolic %d is rendered only for small non-negative ranges
 	s := hAscii(2)
 	verifObserve("u", fmt.Sprintf(`\u%04x`, r))
 	verifObserve("X", fmt.Sprintf("%X|%x|%6x|%-6x|", r, r, r, r))
@@ -158,7 +158,7 @@ func H_SELF_stdlib_strings() {
 func H_SELF_stdlib_numbers() {
 	s := hAscii(2)
 	n := nondetInt()
-	verifAssume(verifAnd(n > -5000, n < 5000))
+	verifAssume(verifAnd(n >= 0, n < 5000))
 	switch nondetIntRange(0, 3) {
 	case 0:
 		a, err := strconv.Atoi(s)
